@@ -80,3 +80,86 @@ for _fn, _cls, _sk in (('skip.py', 'SkipDirective', True), ('include.py', 'Inclu
     for _m, _np in (('on_field_collection', 'field_node'), ('on_fragment_spread_collection', 'fragment_spread_node'), ('on_inline_fragment_collection', 'inline_fragment_node')):
         CONTRACTS.append(CollectionHook(_fn, _cls, _m, _np, _sk))
 LEMMAS = []
+
+
+# ---- object completion: CompleteValue for an object type = ExecuteSelectionSet of the MERGED sub-selections of all field nodes, on the resolved value
+OC = 'tartiflette/coercers/outputs/'
+
+
+class CompleteObjectValue(Contract):
+    """complete_object_value: the sub-selections of every merged field node are collected once for the object type, and executed once, in "read" mode,
+    with the resolved value as the parent value, under this field's path; that response map (or failure) is the result"""
+    key = OC + 'common.py::complete_object_value'
+    property_ids = ('C01',)
+    params = ['result', 'info', 'execution_context', 'field_nodes', 'path', 'return_type']
+
+    def args(self, en, names):
+        self.A = super().args(en, names)
+        self.subfields, self.response = fresh('collected_subfields'), fresh('sub_response')
+        self.collect_fails, self.execute_fails = fresh('collection_fails', BoolS), fresh('execution_fails', BoolS)
+        return self.A
+
+    def pre(self, A, st):
+        return [('info', z3.And(exact(A['info'], 'ResolveInfo'), V.oref(A['info']) >= 0))]
+
+    def ghost0(self, A):
+        return {'collect_calls': z3.IntVal(0), 'collect_args': V.Missing, 'execute_calls': z3.IntVal(0), 'execute_args': V.Missing}
+
+    def _exc(self):
+        e = V.Obj(fresh('ecls', IntS), fresh('eref', IntS))
+        return e, z3.And(inst(e, 'Exception'), V.oref(e) >= 0)
+
+    @property
+    def callee_models(self):
+        def collect(en, st, a, kw):
+            e, wf = self._exc()
+            st = st.put_ghost('collect_calls', st.ghost['collect_calls'] + 1).put_ghost('collect_args', V.Tuple(mklist(*[en.read(x, st) for x in a])))
+            return en.branches(st, [(z3.Not(self.collect_fails), self.subfields), (z3.And(self.collect_fails, wf), Raise(e))])
+
+        def execute(en, st, a, kw):
+            e, wf = self._exc()
+            st = st.put_ghost('execute_calls', st.ghost['execute_calls'] + 1).put_ghost('execute_args', V.Tuple(mklist(*[en.read(x, st) for x in a])))
+            return en.branches(st, [(z3.Not(self.execute_fails), self.response), (z3.And(self.execute_fails, wf), Raise(e))])
+        return {'tartiflette/execution/collect.py::collect_subfields': collect, 'tartiflette/execution/execute.py::execute_fields': execute}
+
+    def post(self, A, st0, out):
+        g = out.st.ghost
+        collected = [('merged_sub_selections_collected_once_for_the_type', z3.And(g['collect_calls'] == 1, g['collect_args'] == V.Tuple(mklist(A['execution_context'], A['return_type'], A['field_nodes']))))]
+        if out.kind == 'raise':
+            return collected + [('only_a_stage_failure_propagates', z3.Or(self.collect_fails, self.execute_fails))]
+        return collected + [('executed_once_on_the_resolved_value', z3.And(g['execute_calls'] == 1, out.value == self.response,
+                             g['execute_args'] == V.Tuple(mklist(A['execution_context'], A['return_type'], A['result'], A['path'], self.subfields, attr0(A['info'], 'is_introspection')))))]
+
+
+class ObjectCoercerBody(Contract):
+    """output object_coercer: a non-null resolved value of an object type is completed as that object type"""
+    key = OC + 'object_coercer.py::object_coercer'
+    decorators = ['null_coercer_wrapper']
+    property_ids = ('C01',)
+    params = ['result', 'info', 'execution_context', 'field_nodes', 'path', 'object_type']
+
+    def args(self, en, names):
+        self.A = super().args(en, names)
+        self.response, self.fails = fresh('object_response'), fresh('completion_fails', BoolS)
+        return self.A
+
+    def ghost0(self, A):
+        return {'calls': z3.IntVal(0), 'call_args': V.Missing}
+
+    @property
+    def callee_models(self):
+        def complete(en, st, a, kw):
+            e = V.Obj(fresh('ecls', IntS), fresh('eref', IntS))
+            st = st.put_ghost('calls', st.ghost['calls'] + 1).put_ghost('call_args', V.Tuple(mklist(*[en.read(x, st) for x in a])))
+            return en.branches(st, [(z3.Not(self.fails), self.response), (z3.And(self.fails, inst(e, 'Exception'), V.oref(e) >= 0), Raise(e))])
+        return {OC + 'common.py::complete_object_value': complete}
+
+    def post(self, A, st0, out):
+        g = out.st.ghost
+        once = [('completed_once_as_this_object_type', z3.And(g['calls'] == 1, g['call_args'] == V.Tuple(mklist(A['result'], A['info'], A['execution_context'], A['field_nodes'], A['path'], A['object_type']))))]
+        if out.kind == 'raise':
+            return once + [('only_completion_fails', self.fails)]
+        return once + [('its_response_is_the_result', out.value == self.response)]
+
+
+CONTRACTS += [CompleteObjectValue(), ObjectCoercerBody()]
